@@ -446,6 +446,73 @@ def same_decision(rep, prog, failures):
     ob.status = "discharged" if ok else "failed"
     if not ok:
         failures.append({"clause": "same_decision", "polarity": "call sites differ", "ob": ob, "q": None, "x": None, "first_iteration": False, "region": "call sites", "provs": provs})
+    # inter-procedural part: where do the stake / total-stake / phi_f arguments ultimately come from on the verifier side?
+    def shortname(f):
+        mm = re.search(r"([a-z_]+\.rs)", f.name)
+        return "%s::%s" % (mm.group(1) if mm else "?", MI.last_segment(f.name)[0])
+
+    def origins(f, pidx, depth, seen):
+        key = (f.name, pidx)
+        if key in seen or depth == 0:
+            return {"param%d of %s" % (pidx, shortname(f))}
+        seen = seen | {key}
+        seg = MI.last_segment(f.name)[0]
+        callers = []
+        for g in prog.fns:
+            if "{closure" in g.name and False:
+                continue
+            for b in g.blocks.values():
+                P.materialize(b)
+                if b.term[0] == "call" and MI.last_segment(b.term[2])[0] == seg and len(b.term[3]) == len(f.params) and g is not f:
+                    # same callee? compare normalised parameter types
+                    callee = None
+                    try:
+                        callee = MI.Interp(prog).resolve(g, b.term[2], [None] * len(b.term[3]))
+                    except MI.Unencodable:
+                        callee = None
+                    if callee is not None and callee is not f:
+                        continue
+                    if callee is None and MI.norm_type(f.params[0][1]).split("<")[0].lstrip("&") not in MI.norm_type(g.locals.get(b.term[3][0][1][0], "") if b.term[3][0][0] != "const" else ""):
+                        continue
+                    callers.append((g, b.term))
+        if not callers:
+            return {"param%d of %s (no caller in the crate: public entry)" % (pidx, shortname(f))}
+        res = set()
+        for g, t in callers:
+            pv = provenance(g, t[3][pidx - 1])
+            mm = re.fullmatch(r"&?param(\d+)\([a-z_0-9]*\)\*?", pv)
+            if mm:
+                res |= origins(g, int(mm.group(1)), depth - 1, seen)
+            else:
+                res.add("%s in %s" % (pv, shortname(g)))
+        return res
+
+    inner = [f for f, t in sites if MI.last_segment(f.name)[0] == "check_indices"]
+    ob2 = rep.add(core.Obligation("c08_verifier_total_stake_origin", "smt",
+                                  "on every verifier path the total-stake argument of the lottery is the aggregate key's total stake and the stake argument never is "
+                                  "(inter-procedural syntactic data-flow from check_indices up to the public entry points)"))
+    ok2 = bool(inner)
+    detail = {}
+    for f in inner:
+        # parameter positions of stake / total_stake in check_indices by debug name
+        names = {n: int(pl[1:]) for n, pl in f.debug.items() if re.fullmatch(r"_\d+", pl) and int(pl[1:]) <= len(f.params)}
+        if "total_stake" not in names or "stake" not in names:
+            ok2 = False
+            continue
+        o_tot = origins(f, names["total_stake"], 4, frozenset())
+        o_stk = origins(f, names["stake"], 4, frozenset())
+        detail = {"total_stake": sorted(o_tot), "stake": sorted(o_stk)}
+        for o in o_tot:
+            if not re.search(r"get_total_stake\(|total_stake", o):
+                ok2 = False
+        for o in o_stk:
+            if re.search(r"get_total_stake\(|total_stake", o):
+                ok2 = False
+    ob2.detail = str(detail)[:1200]
+    ob2.status = "discharged" if ok2 else "failed"
+    if not ok2:
+        failures.append({"clause": "total_stake_origin", "polarity": "verifier decides with another total stake than the signer", "ob": ob2, "q": None, "x": None,
+                         "first_iteration": False, "region": "verifier call chain"})
 
 
 def to_inputs(qf, xf):
@@ -531,6 +598,13 @@ def validate_and_replay(rep, prog, tier, failures):
                     reproduced = dec is not None and (nat == "true") != dec
             except Exception as e:
                 native["error"] = str(e)
+        elif fl["clause"] in ("total_stake_origin", "same_decision"):
+            try:
+                from checks.c01 import native_stm
+                native = {"sign_vs_verify": native_stm("sign_vs_verify"), "structural": ob.detail[:600]}
+                reproduced = native["sign_vs_verify"].startswith("disagree")
+            except Exception as e:
+                native = {"error": str(e)}
         else:
             reproduced = True  # structural obligations on the MIR: the obligation's own detail is the evidence
             native = {"structural": ob.detail}
